@@ -2629,6 +2629,11 @@ func (s *Server) serveConnCounted(c net.Conn, countConcurrency bool) error {
 		ctx.connRequestNum = connRequestNum
 		ctx.time = time.Now()
 
+		// The handler may detach the request body stream from the request
+		// (CloseBodyStream, ResetBody, SetBody...) or time out; remember it.
+		reqStream, _ := ctx.Request.bodyStream.(*requestStream)
+		ctx.Request.bodyStreamUnread = false
+
 		// If a client denies a request the handler should not be called
 		if continueReadingRequest {
 			s.Handler(ctx)
@@ -2654,7 +2659,12 @@ func (s *Server) serveConnCounted(c net.Conn, countConcurrency bool) error {
 		hijackNoResponse = ctx.hijackNoResponse && hijackHandler != nil
 		ctx.hijackNoResponse = false
 
-		if rs, ok := ctx.Request.bodyStream.(*requestStream); ok && hijackHandler == nil {
+		if reqStream != nil && hijackHandler == nil && (timeoutResponse != nil || ctx.Request.bodyStreamUnread) {
+			// The handler timed out and still owns the stream, or it closed
+			// the stream before reading the whole body: the rest of the body
+			// can't be skipped, so the connection must not be reused.
+			connectionClose = true
+		} else if rs, ok := ctx.Request.bodyStream.(*requestStream); ok && hijackHandler == nil {
 			// Discard the part of the request body the handler didn't read,
 			// so it isn't parsed as the next request. Close the connection
 			// if the body is too big or cannot be read to its end.
